@@ -9,6 +9,28 @@ TB = ("Coq 8.16.1 kernel; hand-written Gallina model tied to /repo by the corres
       "OCaml runner/main.ml; Python harness. See DESIGN.md section 7.")
 
 CLAIMED = {
+ "C17": dict(
+   text="13 theorems about a Gallina model of zx.Diagram.to_pyzx / from_pyzx (graph = vertices, typed edges, ordered "
+        "inputs/outputs): the exported graph has one vertex per boundary wire and spider, one edge per wire, Hadamard "
+        "flag = parity of H boxes on the wire (against an independent wire-tracing specification), inputs/outputs in "
+        "wire order; every imported diagram is well-typed with the graph's numbers of inputs and outputs; bad "
+        "boundaries are refused.  PARTIAL: the semantic statements (graph_sem (to_pyzx d) = zx_sem d; import sound) are "
+        "kept as Definitions and only computed on listed instances in Cyc8.  Tie to /repo (through a documented adapter "
+        "for pyzx 0.10.6): exact comparison of graphs and imported diagrams, pyzx's own to_matrix() against a numpy "
+        "standard-interpretation evaluator in both directions.",
+   design="6/C17", engine="coq-pyzx",
+   technique="Coq proof (shape theorems; semantics partial) + exact graph correspondence + pyzx to_matrix oracle"),
+ "C18": dict(
+   text="20 theorems about Gallina models of pregroup.eager_parse / brute_force, CFG.generate (random.shuffle as an "
+        "explicit oracle), ccg.cat2ty / tree2diagram and the biclosed -> rigid translation: parses have empty domain, "
+        "the target as codomain, the words in order then only cups on adjacent (t, t.r), always contracting the leftmost "
+        "pair, failing only with NotImplementedError; every generated sentence is a derivation of the start symbol from "
+        "the given productions for every shuffle oracle; biclosed2rigid is type-preserving and never refused for FA, BA "
+        "(any left argument), FC, BC, FX, BX and Curry (any n_wires) over arbitrarily nested slash types, and for every "
+        "diagram the public constructors accept, including those built from CCG trees.  Tie to /repo: exact comparison "
+        "of returned diagrams with recorded shuffles replayed into the model; image / grammaticality oracles.",
+   design="6/C18", engine="coq-grammar",
+   technique="Coq proof (induction on slash types, parser loop invariants) + extracted-model correspondence + oracles"),
  "C07": dict(
    text="12 theorems about a Gallina model of rewriting.snake_removal (follow_wire, find_snake, unsnake with its "
         "index bookkeeping, the outer loop, then monoidal normalize): every yielded step of every prefix of the trace "
@@ -154,6 +176,8 @@ man = {
    ("coq-cart", "coq/Cart", "Gallina model of discopy.cartesian + Coq theorems + extracted runner"),
    ("coq-draw", "coq/Draw", "Gallina model of drawing.diagram2nx over Q + Coq theorems + extracted runner"),
    ("coq-snake", "coq/Snake", "Gallina model of rewriting.snake_removal on top of the core model + Coq theorems + extracted runner"),
+   ("coq-pyzx", "coq/PyZX", "Gallina model of the pyzx export/import of ZX diagrams + Coq theorems + extracted runner"),
+   ("coq-grammar", "coq/Grammar", "Gallina models of the pregroup parser, CFG generation, CCG trees and biclosed->rigid translation + Coq theorems + extracted runner"),
    ("coq-tensor", "coq/Tensor", "Gallina model of numpy primitives and discopy.tensor.Tensor over Gaussian integers + Coq theorems + extracted runner"),
  ]],
  "checks": checks,
